@@ -1,5 +1,6 @@
 import HabuVerif.Core.Toy
 import HabuVerif.Drv.IniDrv
+import HabuVerif.Drv.InputsDrv
 /-!
 Line-protocol driver: the correspondence harness pipes operations in, the model's answers come
 out, one canonical line each.  Imports model files only (no Mathlib), so it can be compiled.
@@ -146,6 +147,7 @@ partial def loop (h : IO.FS.Stream) (out : IO.FS.Stream) (m : Mode) : IO Unit :=
   | .idle, l => do
     -- stateless streams: `<stream> <op...>`
     if l.startsWith "ini " then out.putStrLn (IniDrv.step (l.drop 4).toString)
+    else if l.startsWith "inp " then out.putStrLn (InputsDrv.step (l.drop 4).toString)
     else out.putStrLn "bad-op"
     loop h out .idle
 
